@@ -10,15 +10,18 @@ package broker
 
 import (
 	"fmt"
+	"sort"
 	"strings"
 	"testing"
+	"testing/synctest"
 )
 
 type gEnumSpec struct {
-	Cfg      gConfig
-	Alphabet []gOp
-	Names    []string // one short name per alphabet entry (witness readability)
-	Depth    int
+	Cfg       gConfig
+	Preambles map[string][]gOp // named start states: ops run (and observed) before the enumerated part
+	Alphabet  []gOp
+	Names     []string // one short name per alphabet entry (witness readability)
+	Depth     int
 }
 
 func (s gEnumSpec) total() int {
@@ -26,37 +29,68 @@ func (s gEnumSpec) total() int {
 	for i := 0; i < s.Depth; i++ {
 		n *= len(s.Alphabet)
 	}
+	if len(s.Preambles) > 0 {
+		n *= len(s.Preambles)
+	}
 	return n
+}
+
+func (s gEnumSpec) starts() []string {
+	var names []string
+	for k := range s.Preambles {
+		names = append(names, k)
+	}
+	sort.Strings(names)
+	if len(names) == 0 {
+		names = []string{""}
+	}
+	return names
 }
 
 // gEnumerate runs all |alphabet|^depth sequences. mk is called per sequence and
 // returns the observers; done is called with the finished world.
 func gEnumerate(t *testing.T, spec gEnumSpec, mk func(seq string) []gObserver, done func(seq string, w *gWorld)) {
+	count := 0
+	for _, start := range spec.starts() {
+		gEnumerateFrom(t, spec, start, &count, mk, done)
+	}
+}
+
+func gEnumerateFrom(t *testing.T, spec gEnumSpec, start string, countp *int, mk func(seq string) []gObserver, done func(seq string, w *gWorld)) {
 	idx := make([]int, spec.Depth)
 	n := len(spec.Alphabet)
-	ops := make([]gOp, spec.Depth)
-	names := make([]string, spec.Depth)
-	for count := 0; ; count++ {
-		for i, k := range idx {
-			ops[i] = spec.Alphabet[k]
-			names[i] = spec.Names[k]
-		}
-		seq := strings.Join(names, " ")
-		cfg := spec.Cfg
-		cfg.Group = fmt.Sprintf("e%d", count)
-		w := gRunCase(t, cfg, ops, int64(count%20000)*100000, func(w *gWorld) { w.obs = append(w.obs, mk(seq)...) })
-		done(seq, w)
-		// next sequence
-		i := spec.Depth - 1
-		for ; i >= 0; i-- {
-			idx[i]++
-			if idx[i] < n {
-				break
+	count, finished := *countp, false
+	defer func() { *countp = count }()
+	pre := spec.Preambles[start]
+	for !finished {
+		// a few thousand independent sequences share one bubble
+		synctest.Test(t, func(t *testing.T) {
+			for inBubble := 0; inBubble < 2000 && !finished; inBubble++ {
+				ops := append([]gOp(nil), pre...)
+				names := make([]string, spec.Depth)
+				for i, k := range idx {
+					ops = append(ops, spec.Alphabet[k])
+					names[i] = spec.Names[k]
+				}
+				seq := start + ": " + strings.Join(names, " ")
+				cfg := spec.Cfg
+				cfg.Group = fmt.Sprintf("e%d", count)
+				w := gRunCaseInBubble(t, cfg, ops, int64(count%20000)*100000, func(w *gWorld) { w.obs = append(w.obs, mk(seq)...) })
+				done(seq, w)
+				count++
+				// next sequence
+				i := spec.Depth - 1
+				for ; i >= 0; i-- {
+					idx[i]++
+					if idx[i] < n {
+						break
+					}
+					idx[i] = 0
+				}
+				if i < 0 {
+					finished = true
+				}
 			}
-			idx[i] = 0
-		}
-		if i < 0 {
-			return
-		}
+		})
 	}
 }
